@@ -93,6 +93,18 @@ def df_subset(inp, W):
 # ---------------------------------------------------------------------------- C03 sort
 
 @op
+def df_sort_twice(inp, W):
+    """sort, edit the key column in place, sort again (state kept on column objects must not leak)"""
+    data = inp["data"]
+    by = {name: d for name, d in inp["by"]}
+    first = data.sort(**by)
+    col = data[inp["by"][0][0]]
+    for i, v in enumerate(inp["new"]):
+        col[i] = v
+    out = data.sort(**by)
+    return {"out": out, "recv": data, "alias": _frame_alias(W, out, data)}
+
+@op
 def df_sort(inp, W):
     data = inp["data"]
     out = data.sort(**{name: d for name, d in inp["by"]})
@@ -481,11 +493,15 @@ def lod_history(inp, W):
         nodes.append(r); warnings.append(0)
     flags = [bool(list.__getattribute__(x, "_obsolete")) for x in nodes]
     first = []; second = []
+    import copy as _copy
+    how = inp.get("first_use", "named")
+    uses = {"named": lambda x: x.pluck, "slice": lambda x: x[0:1], "add": lambda x: x + other, "mul": lambda x: x * 1,
+            "rmul": lambda x: 1 * x, "copy": lambda x: _copy.copy(x), "len_then_named": lambda x: (len(x), x.keys)}
     for i in range(len(nodes)):
-        w0 = warnings[i]; use(i, lambda x: x.pluck); first.append(warnings[i] - w0)
+        w0 = warnings[i]; use(i, uses[how]); first.append(warnings[i] - w0)
     for i in range(len(nodes)):
         w0 = warnings[i]; use(i, lambda x: x.pluck); second.append(warnings[i] - w0)
-    return {"flags": flags, "warnings_total": list(warnings), "second_use": second}
+    return {"flags": flags, "warnings_total": list(warnings), "second_use": second, "first_use": first}
 
 # ---------------------------------------------------------------------------- C07 aggregation helpers
 
@@ -592,6 +608,12 @@ def vec_build(inp, W):
     if len(up):
         up[0] = v.na_value
         res["na_dtype_holds_na"] = bool(up.is_na()[0])
+        # the documented way (Vector.na_dtype docstring): put(), on a vector that has been inspected before
+        up2 = v.astype(v.na_dtype)
+        before = up2.is_na().tolist()
+        up2.put([len(up2) - 1], v.na_value)
+        res["put_na_seen"] = bool(up2.is_na()[len(up2) - 1]) and up2.tolist()[len(up2) - 1] is None
+        res["put_others_kept"] = [bool(a) == bool(b) for a, b in zip(before[:-1], up2.is_na().tolist()[:-1])]
     res["drop_na"] = v.drop_na()
     if "fill" in inp:
         res["replace_na"] = v.replace_na(inp["fill"])
